@@ -269,6 +269,20 @@ def run(tier):
     compressor(prog, res)
     witnesses(prog, res)
     t4_common.run(prog, res, "T4.error-discipline", ["contrib/seekable_format/"], 12)
+    # reading at or beyond the end: `eos - offset` is only computed when offset < eos
+    f = prog.fn("ZSTD_seekable_decompress")
+    subs = []
+    for b, i, r in f.roots():
+        for x in walk(r):
+            if x.get("k") == "bin" and x.get("op") == "-" and "v" not in x:
+                rr = strip_casts(f.resolve_x(x["rhs"]))
+                if rr is not None and rr.get("k") == "ref" and rr.get("rk") == "p" and rr.get("pi") == 3 and "f:dOffset" in f.anchors(x["lhs"], depth=2):
+                    subs.append((b, i, x))
+    okedges = guards.rel_edges(f, lambda a: a.get("k") == "ref" and a.get("rk") == "p" and a.get("pi") == 3, ">=", lambda b_: "f:dOffset" in f.anchors(b_, depth=2), truth=False) + \
+        guards.rel_edges(f, lambda a: a.get("k") == "ref" and a.get("rk") == "p" and a.get("pi") == 3, ">", lambda b_: "f:dOffset" in f.anchors(b_, depth=2), truth=False)
+    res.check(bool(subs) and bool(okedges) and f.must_pass(via_edges=set(okedges), targets=[(b, i) for b, i, _ in subs]), "T8.read-range-clamp", "eos-minus-offset-needs-offset-below-eos", f.loc,
+              "the length clamp `eos - offset` is computed only on the `offset < eos` edge", "ZSTD_seekable_decompress computes eos - offset for an offset beyond the end: the difference wraps and is returned as the number of bytes read")
+    res.need("T8.read-range-clamp", 1)
     # frozen guards of the seekable format (all error codes)
     import json as _json, os as _os
     _inv = _json.load(open(_os.path.join(_os.path.dirname(_os.path.abspath(__file__)), "inv", "C20.json")))
